@@ -256,6 +256,22 @@ pub struct Pbuf {
     pub total_released: u64,
 }
 
+impl Pbuf {
+    /// Buffer ids currently offered to the kernel.
+    pub fn window(&self) -> Vec<u16> {
+        let mask = self.entries - 1;
+        let n = self.seen_tail.wrapping_sub(self.head);
+        (0..n)
+            .map(|i| unsafe {
+                (self.ring_addr as *const Buf)
+                    .add((self.head.wrapping_add(i) & mask) as usize)
+                    .read()
+                    .bid
+            })
+            .collect()
+    }
+}
+
 #[derive(Clone, Debug)]
 pub struct Published {
     pub idx: u32,
